@@ -294,6 +294,81 @@ def check_config(cfg, counters, viols, case_of):
                 pass
 
 
+SIDES = ['unbound', 'unbound_chain', 'async', 'blocking', 'fallback', 'other']
+
+
+def _side(kind, cur, other):
+    """(nodes of one pipeline, the node that takes part in the connect, known loop kind, known mode)"""
+    from streamz import Stream
+    if kind == 'unbound':
+        s = Stream()
+        return [s], s, None, None
+    if kind == 'unbound_chain':
+        s = Stream()
+        m = s.map(lambda x: x)
+        return [s, m], m, None, None
+    if kind == 'async':
+        s = Stream(asynchronous=True)
+        m = s.map(lambda x: x)
+        return [s, m], m, 'current', True
+    if kind == 'blocking':
+        s = Stream(asynchronous=False)
+        return [s], s, 'bg', False
+    if kind == 'fallback':
+        s = Stream()
+        b = s.buffer(2)
+        return [s, b], s, 'bg', False
+    s = Stream(loop=other)
+    return [s], s, 'other', None
+
+
+def check_connect(up_kind, down_kind, counters, viols):
+    """two pipelines built separately are joined with connect(): afterwards they are one pipeline -- one loop, one mode -- or
+    the connect raises because what the two sides already know conflicts"""
+    import streamz.core as score
+    from tornado.ioloop import IOLoop
+    cfg = ('connect', up_kind, down_kind)
+
+    def add(key, what):
+        viols.append({'key': key, 'what': what, 'case': {'connect': [up_kind, down_kind]}})
+    with virtual_env() as env:
+        cur = env.io
+        other = IOLoop(make_current=False)
+        try:
+            un, u, ul, ua = _side(up_kind, cur, other)
+            dn, d, dl, da = _side(down_kind, cur, other)
+            conflict = (ul is not None and dl is not None and ul != dl) or (ua is not None and da is not None and ua != da)
+            try:
+                u.connect(d)
+                raised = None
+            except ValueError as ex:
+                raised = ex
+            counters['configurations_checked'] = counters.get('configurations_checked', 0) + 1
+            counters['conflict_expectations_checked'] = counters.get('conflict_expectations_checked', 0) + 1
+            counters['connect_configurations_checked'] = counters.get('connect_configurations_checked', 0) + 1
+            if conflict:
+                counters['conflicts_expected'] = counters.get('conflicts_expected', 0) + 1
+                if raised is None:
+                    add('C19:conflict-not-raised@connect', '%r: upstream side knows loop=%s asynchronous=%r, downstream side loop=%s asynchronous=%r; '
+                        'connect() joined them silently' % (cfg, ul, ua, dl, da))
+                return
+            if raised is not None:
+                add('C19:unexpected-ValueError@connect', '%r raised %r although nothing conflicts' % (cfg, raised))
+                return
+            loops = {_lk(n.loop, cur, other, score) for n in un + dn}
+            if len(loops) > 1:
+                add('C19:pipeline-split@connect', '%r: after connect() the nodes of the joined pipeline have loops %s' % (cfg, sorted(map(str, loops))))
+            modes = {bool(n.asynchronous) for n in un + dn if n.asynchronous is not None}
+            known = {n.asynchronous is not None for n in un + dn}
+            if len(modes) > 1 or (True in known and False in known):
+                add('C19:mode-disagreement@connect', '%r: after connect() asynchronous flags are %s' % (cfg, [n.asynchronous for n in un + dn]))
+        finally:
+            try:
+                other.close(all_fds=True)
+            except Exception:
+                pass
+
+
 def _klass(cfg):
     t = cfg[1]
     if t in SOURCES:
@@ -448,6 +523,13 @@ def run_shard(seed, tier, shard, nshards):
         if len(out['samples']) < 3 and cfg[0] != 'absent':
             out['samples'].append({'configuration': {'upstream': cfg[0], 'node': cfg[1], 'asynchronous': cfg[2], 'loop': cfg[3]},
                                    'expected': list(expectation(cfg, None, None))})
+    pairs = [(a, b) for a in SIDES for b in SIDES]
+    for a, b in pairs[shard::nshards]:
+        v = []
+        check_connect(a, b, out['counters'], v)
+        out['evaluations'] += 1
+        out['keys'].append('connect:%s:%s' % (a, b))
+        out['violations'].extend(v)
     kinds = PRISTINE_KINDS[shard::nshards] if tier == 'quick' else PRISTINE_KINDS[shard % len(PRISTINE_KINDS)::max(1, nshards)]
     for kind in kinds:
         r = pristine(kind)
@@ -485,6 +567,8 @@ def replay(case):
     if 'cfg' in case:
         cfg = tuple(case['cfg'])
         check_config(cfg, {}, v, lambda c: case)
+    elif 'connect' in case:
+        check_connect(case['connect'][0], case['connect'][1], {}, v)
     else:
         r = pristine(case['pristine'])
         if r and (r.get('error') or r.get('threads') != 1 or r.get('io_loops') != 0 or r.get('foreign')):
